@@ -2127,6 +2127,35 @@ type (
 	}
 )
 
+// RebaseTagDetails returns tags with the time bounds of their conditions
+// expressed relative to referenceTime instead of the time the tag was parsed
+// at, so that the conditions can be inlined into a query with that reference time.
+func RebaseTagDetails(tags map[string]TagDetails, referenceTime time.Time) map[string]TagDetails {
+	res := make(map[string]TagDetails, len(tags))
+	for tn, td := range tags {
+		if !td.ReferenceTime.IsZero() && !td.ReferenceTime.Equal(referenceTime) {
+			// an absolute time T is stored as Duration = (reference time - T) * ReferenceTimeFactor
+			delta := referenceTime.Sub(td.ReferenceTime)
+			rebased := make(ConditionsSet, len(td.Conditions))
+			for i, ccs := range td.Conditions {
+				rebased[i] = make(Conditions, len(ccs))
+				for j, cc := range ccs {
+					if c, ok := cc.(*TimeCondition); ok && c.ReferenceTimeFactor != 0 {
+						nc := *c
+						nc.Duration += delta * time.Duration(c.ReferenceTimeFactor)
+						cc = &nc
+					}
+					rebased[i][j] = cc
+				}
+			}
+			td.Conditions = rebased
+			td.ReferenceTime = referenceTime
+		}
+		res[tn] = td
+	}
+	return res
+}
+
 func (cs Conditions) inlineTagFilter(tags map[string]TagDetails) ConditionsSet {
 	const (
 		uncertain = TagConditionAcceptUncertainFailing | TagConditionAcceptUncertainMatching
